@@ -19,7 +19,10 @@ RULE = (
     "BFS over event histories (depth <= 12 or fix-point) on crops of 1..8 "
     "batches with and without a remainder, plus crops of 12 and 101 batches "
     "(two- and three-digit ids) with a sparser alphabet to depth 3-5; state = (tree hash of the crop "
-    "directory, whether the live Crop object is the sower or a reload); every "
+    "directory, whether the live Crop object is the sower or a reload and "
+    "whether it holds the function sown last); events include a finished "
+    "result damaged from outside followed by check_bad, and another session "
+    "sowing another function over the still empty crop; every "
     "transition replays the whole history on fresh real objects; non-trivial "
     "= distinct reachable states"
 )
@@ -77,7 +80,11 @@ class World:
         self.cfg, self.d, self.tier = cfg, d, tier
         self.B = nbatches(cfg)
         self.N = cfg["N"]
-        self.f = xfn.make_fn(["a"], kind="num", name="f08")
+        self.fs = [xfn.make_fn(["a"], kind="num", name="f08", version=v)
+                   for v in (0, 1)]
+        self.f = self.fs[0]
+        self.ver = 0  # which function was sown last
+        self.live_ver = 0  # which function the live Crop object holds
         self.combos = {"a": [3 * i + 1 for i in range(self.N)]}
         self.live = None
         self.live_kind = "none"
@@ -98,6 +105,7 @@ class World:
             self.live = xyz.Crop(fn=self.f, name=NAME, parent_dir=self.d,
                                  **{self.cfg["mode"]: self.cfg["req"]})
             self.live_kind = "sower"
+            self.live_ver = 0
         self.live.sow_combos(self.combos, verbosity=0)
         self.sown = True
         if self.batches is None:
@@ -122,7 +130,7 @@ class World:
         fsseam.restore(self.d, snap)
 
     def expected_result(self, i):
-        return tuple(xfn.value("num", e) for e in self.batches[i])
+        return tuple(xfn.value("num", e, self.ver) for e in self.batches[i])
 
     def disk_finished(self):
         out = set()
@@ -155,7 +163,9 @@ class World:
             ev += [["grow_missing"], ["cgrow", [1, B]], ["reload"]]
             ev += [["delete", i] for i in sorted(finished)[:2]]
             return ev
-        ev.append(["sow"])
+        if self.live_ver == self.ver:
+            # (sowing again through the live object sows *its* function)
+            ev.append(["sow"])
         ids = list(range(1, B + 1))
         subsets = [list(s) for k in (2,) for s in itertools.combinations(ids, k)]
         if self.tier == "thorough" and B <= 4:
@@ -173,6 +183,16 @@ class World:
             ev.append(["fgrow_missing", missing[-1]])
         ev += [["delete", i] for i in sorted(finished)]
         ev += [["check_bad"], ["reload"]]
+        # a finished result damaged from outside, then check_bad
+        fl = sorted(finished)
+        for i in sorted({fl[0], fl[-1]} if fl else ()):
+            ev.append(["badcheck", i, "garbage"])
+            if len(self.batches[i]) >= 1:
+                ev.append(["badcheck", i, "short" if i % 2 else "long"])
+        if not finished:
+            # another session sows another function over the (still empty)
+            # crop; the live object stays as it is
+            ev.append(["resow_other"])
         return ev
 
     def apply(self, ev, finished):
@@ -297,6 +317,38 @@ class World:
         elif kind == "reload":
             self.live = self.fresh()
             self.live_kind = "reload"
+            self.live_ver = self.ver
+        elif kind == "badcheck":
+            j, how = ev[1], ev[2]
+            p_ = os.path.join(self.d, self.resfile[j])
+            if how == "garbage":
+                with open(p_, "rb") as fh:
+                    raw = fh.read()
+                with open(p_, "wb") as fh:
+                    fh.write(raw[: max(1, len(raw) // 2)])
+            else:
+                with open(p_, "rb") as fh:
+                    good = tuple(pickle.load(fh))
+                with open(p_, "wb") as fh:
+                    pickle.dump(good[:-1] if how == "short"
+                                else good + good[-1:], fh)
+            before = _stable(fsseam.snapshot(self.d))
+            with core.Silence():
+                bad_ids = self.live.check_bad()
+            got_ids = sorted(int(b) for b in bad_ids)
+            if got_ids != [j] or changed() != [self.resfile[j]]:
+                vio.append((key("wrong-ones"),
+                            "result %d was damaged (%s): check_bad() returned "
+                            "%r and changed %r" % (j, how, bad_ids, changed())))
+            new_finished.discard(j)
+        elif kind == "resow_other":
+            import xyzpy as xyz
+
+            self.ver = 1 - self.ver
+            other = xyz.Crop(fn=self.fs[self.ver], name=NAME,
+                             parent_dir=self.d,
+                             **{self.cfg["mode"]: self.cfg["req"]})
+            other.sow_combos(self.combos, verbosity=0)
         else:
             raise core.HarnessError("unknown event %r" % (ev,))
         return vio, new_finished, tag
@@ -356,8 +408,8 @@ def build(cfg, hist, d, tier):
 
 
 def canon(w):
-    return "%s|%s" % (fsseam.snap_hash(_stable(fsseam.snapshot(w.d))),
-                      w.live_kind)
+    return "%s|%s|%s" % (fsseam.snap_hash(_stable(fsseam.snapshot(w.d))),
+                         w.live_kind, w.live_ver == w.ver)
 
 
 def expand(task):
